@@ -37,6 +37,8 @@ def main(argv=None):
     results = harness.run_shards(pid, specs, timeout)
     slow = sorted(((round(r['wall'], 1), r['idx'], specs[r['idx']].get('kind')) for r in results), reverse=True)[:3]
     m = harness.merge(results)
+    if hasattr(mod, 'post_merge') and not a.replay:
+        mod.post_merge(m, a.tier)
 
     # ---- verdict ------------------------------------------------------
     unknown = m['violations']
